@@ -80,7 +80,6 @@ var TypeObjectInitHash = NewStructType([]*StructElement{
 	NewStructElement(newOptionalType3(keyFunctions), TypeFunctions),
 	NewStructElement(newOptionalType3(keyEquality), TypeEquality),
 	NewStructElement(newOptionalType3(keyEqualityIncludeType), DefaultBooleanType()),
-	NewStructElement(newOptionalType3(keyEquality), TypeEquality),
 	NewStructElement(newOptionalType3(keySerialization), TypeMemberNames),
 	NewStructElement(newOptionalType3(keyAnnotations), typeAnnotations),
 })
